@@ -29,6 +29,8 @@ type wireCase struct {
 	Objs    []nObj   `json:"objs,omitempty"` // sync: the updated members (Path, ETag, Mod)
 	Deleted []string `json:"deleted,omitempty"`
 	Token   string   `json:"token,omitempty"`
+	// sync: the caller's arguments (nil: AllProp, a fixed token, no limit)
+	SyncArgs *syncArgs `json:"sync_args,omitempty"`
 	// FailCode != 0: one more response, for path FailPath, carries this status
 	// instead of properties (multiget); the call may then fail as a whole.
 	FailCode int    `json:"fail_code,omitempty"`
@@ -452,6 +454,20 @@ func genWireCase(c *fw.Ctx, g *gen, proto, op string) *wireCase {
 			variant = append(variant, "collection-itself-entry")
 		}
 		ms.SyncToken = cs.Token
+		// the caller's arguments: initial / incremental, limited or not (the
+		// answer stays within the limit), the three forms of a data request
+		cs.SyncArgs = &syncArgs{Token: "http://example.com/ns/sync/1233", Data: []string{"allprop", "allprop", "zero", "props"}[r.Intn(4)]}
+		if r.Intn(4) == 0 {
+			cs.SyncArgs.Token = ""
+			variant = append(variant, "initial-sync")
+		}
+		if total := n + nd; r.Intn(3) == 0 {
+			cs.SyncArgs.Limit = total + r.Intn(3)
+			if cs.SyncArgs.Limit > 0 {
+				variant = append(variant, "limited")
+			}
+		}
+		g.feat("sync:data-request-" + cs.SyncArgs.Data)
 	}
 	if b.extras && r.Intn(3) == 0 {
 		ms.Desc = "overall description"
@@ -592,7 +608,11 @@ func runWire(c *fw.Ctx, cs *wireCase) {
 		var up []nObj
 		var del []string
 		var cerr error
-		if !k.guard(group, op+" (independent writer)", func() { token, up, del, cerr = st.sync(cs.ReqPath, "http://example.com/ns/sync/1233") }) {
+		args := syncArgs{Token: "http://example.com/ns/sync/1233"}
+		if cs.SyncArgs != nil {
+			args = *cs.SyncArgs
+		}
+		if !k.guard(group, op+" (independent writer)", func() { token, up, del, cerr = st.sync(cs.ReqPath, args) }) {
 			return
 		}
 		k.observeCall(op+" (independent writer)", cerr, false)
@@ -625,6 +645,18 @@ func runWire(c *fw.Ctx, cs *wireCase) {
 				g := members[gm[i]]
 				k.distinctObj("wire-sync", &cs.Objs[i])
 				k.compareFields(group, op, objFields(&cs.Objs[i], false), nil, objFields(&g, false), &cs.Objs[i], nil, &g)
+				// The call asks for address-data (SyncQuery.DataRequest); where
+				// the answer carries the whole card for a member, the value
+				// returned for it has to carry an equal card. A selection
+				// ("props") leaves open what a server sends: not judged.
+				if cs.Objs[i].Card != nil && args.Data != "props" {
+					k.c.Observe("sync: updated members answered with address-data", map[bool]string{true: "card returned", false: "no card returned"}[g.Card != nil], 1)
+					if g.Card == nil {
+						k.report(group, k.noWire(), "Data", "address-data of an updated member dropped (no card returned)", op, clip(cs.Objs[i].dataCanon()), nil, "nil")
+					} else if g.dataCanon() != cs.Objs[i].dataCanon() {
+						k.report(group, k.noWire(), "Data", diffData(&cs.Objs[i], &g), op, clip(cs.Objs[i].dataCanon()), nil, clip(g.dataCanon()))
+					}
+				}
 			}
 		}
 		_, problem, at = matchPaths(cs.Deleted, del)
@@ -679,7 +711,7 @@ func (k *chk) selfCheck(cs *wireCase, ms *davx.MultiStatus) string {
 			if s, _ := wireTime(t, has); s != unixStr(o.Mod) {
 				return "getlastmodified"
 			}
-			if cs.Op != "sync" {
+			if cs.Op != "sync" || o.Card != nil {
 				d, has := propText(r, k.st.dataNS, k.st.dataLocal)
 				if !has {
 					return "object data missing"
